@@ -671,19 +671,6 @@ func doConcurrent(j *job, res map[string]any) {
 	targets := targetsOf(j)
 	n := dataInt(j, "n", 8)
 	rounds := dataInt(j, "rounds", 1)
-	// sequential reference: every (program, target) on a fresh module, fresh backend
-	ref := map[unit]string{}
-	okProg := make([]bool, len(progs))
-	for pi, src := range progs {
-		for _, t := range targets {
-			m, _ := lower(src)
-			if m == nil {
-				break
-			}
-			okProg[pi] = true
-			ref[unit{pi, t}], _ = runTarget(t, m, nil)
-		}
-	}
 	var mu sync.Mutex
 	var bad []any
 	report := func(e map[string]any) {
@@ -692,6 +679,9 @@ func doConcurrent(j *job, res map[string]any) {
 		mu.Unlock()
 	}
 	units := 0
+	// The concurrent phase runs FIRST, in a process that has compiled nothing yet: lazily filled
+	// package-level tables and caches are then written concurrently (and seen by the race detector);
+	// the sequential reference is computed afterwards.
 	switch mode {
 	case "separate":
 		// goroutine g owns programs g, g+n, ...: full pipeline (parse, lower, every target) with
@@ -700,13 +690,10 @@ func doConcurrent(j *job, res map[string]any) {
 			got := map[unit]string{}
 			bes := map[string]*spirv.Backend{"spv": spirv.NewBackend(spvOptions(false)), "spvd": spirv.NewBackend(spvOptions(true))}
 			for pi := g % len(progs); pi < len(progs); pi += n {
-				if !okProg[pi] {
-					continue
-				}
 				for _, t := range targets {
-					m, _ := lower(progs[pi])
+					m, cls := lower(progs[pi])
 					if m == nil {
-						got[unit{pi, t}] = "frontend-failed"
+						got[unit{pi, t}] = "frontend:" + cls
 						continue
 					}
 					got[unit{pi, t}], _ = runTarget(t, m, bes[t])
@@ -714,56 +701,77 @@ func doConcurrent(j *job, res map[string]any) {
 			}
 			return got
 		}
-		alone := make([]map[unit]string, n)
-		for g := 0; g < n; g++ {
-			alone[g] = work(g)
-		}
+		conc := make([][]map[unit]string, rounds)
 		for r := 0; r < rounds; r++ {
+			conc[r] = make([]map[unit]string, n)
 			var wg sync.WaitGroup
 			for g := 0; g < n; g++ {
 				wg.Add(1)
 				go func(g int) {
 					defer wg.Done()
-					got := work(g)
-					for u, o := range got {
-						if o != alone[g][u] {
-							report(map[string]any{"kind": "output-differs", "prog": u.prog, "target": u.target, "mode": mode})
-						}
-					}
+					conc[r][g] = work(g)
 				}(g)
 			}
 			wg.Wait()
 		}
+		for g := 0; g < n; g++ {
+			alone := work(g)
+			for r := 0; r < rounds; r++ {
+				for u, o := range conc[r][g] {
+					if o != alone[u] {
+						report(map[string]any{"kind": "output-differs", "prog": u.prog, "target": u.target, "mode": mode})
+					}
+				}
+			}
+		}
 		units = rounds * len(progs) * len(targets)
 	case "shared":
 		// one module per (round, program); one goroutine per target, all started together
+		type obs struct {
+			u unit
+			o string
+		}
+		var seen []obs
 		for r := 0; r < rounds; r++ {
 			for pi, src := range progs {
-				if !okProg[pi] {
+				m, _ := lower(src)
+				if m == nil {
 					continue
 				}
-				m, _ := lower(src)
 				before := hashValue(m)
 				start := make(chan struct{})
+				outs := make([]string, len(targets))
 				var wg sync.WaitGroup
-				for _, t := range targets {
+				for ti, t := range targets {
 					wg.Add(1)
-					go func(t string) {
+					go func(ti int, t string) {
 						defer wg.Done()
 						<-start
-						o, _ := runTarget(t, m, nil)
-						if o != ref[unit{pi, t}] {
-							report(map[string]any{"kind": "output-differs", "prog": pi, "target": t, "mode": mode})
-						}
-					}(t)
+						outs[ti], _ = runTarget(t, m, nil)
+					}(ti, t)
 				}
 				close(start)
 				wg.Wait()
 				units += len(targets)
+				for ti, t := range targets {
+					seen = append(seen, obs{unit{pi, t}, outs[ti]})
+				}
 				if after := hashValue(m); after != before {
 					mf, _ := lower(src)
 					report(map[string]any{"kind": "module-mutated", "prog": pi, "mode": mode, "paths": diffValues(mf, m, 6)})
 				}
+			}
+		}
+		ref := map[unit]string{}
+		for _, ob := range seen {
+			r, ok := ref[ob.u]
+			if !ok {
+				m, _ := lower(progs[ob.u.prog])
+				r, _ = runTarget(ob.u.target, m, nil)
+				ref[ob.u] = r
+			}
+			if ob.o != r {
+				report(map[string]any{"kind": "output-differs", "prog": ob.u.prog, "target": ob.u.target, "mode": mode})
 			}
 		}
 	}
